@@ -31,8 +31,10 @@
 (*               block loop covers every row once (BlockRefines), grids across the    *)
 (*               2^20-point boundary with their exact integrals (SCALE);              *)
 (*  InitH/NextH  threads: every interleaving of the configure / use steps of NThr     *)
-(*               concurrent calls on the module function or a shared object           *)
-(*               (ThrRefines), exported (THR) for replay with real threads.           *)
+(*               concurrent calls on the module function ("qgauss"), on one object    *)
+(*               per thread ("own") or on one shared object used read-only ("shared": *)
+(*               no call changes its point count) (ThrRefines), exported (THR) for    *)
+(*               replay with real threads.                                            *)
 EXTENDS Quadrature, Json
 
 CONSTANTS AMax,        \* interval end points a,b in -AMax..AMax, a # b
@@ -328,25 +330,28 @@ BlockLaws == phase = "block" =>
 \* ---- threads -------------------------------------------------------------------------------------
 \* c.sched = the interleaving so far; s = property-level thread state; m = shared object; last = verdict;
 \* pc[t] in "idle" | "configured" | "done", taken[t] = rule in hand after the configure step
-InitH == phase = "start" /\ c = NoCase /\ s = ThrNew(QNone) /\ m = MechNew(QNone) /\ last = [ok |-> TRUE, why |-> "none"]
+InitH == phase = "start" /\ c = NoCase /\ s = ThrNew(QNone, FALSE) /\ m = MechNew(QNone) /\ last = [ok |-> TRUE, why |-> "none"]
 HConstruct == /\ phase = "start"
-              /\ \E target \in {"qgauss", "object"} : \E n \in ThrNpts \cup {QNone} :
-                    (target = "qgauss" => n = QNone) /\
+              /\ \E target \in {"qgauss", "own", "shared"} : \E n \in ThrNpts \cup {QNone} :
+                    (target = "qgauss" => n = QNone) /\ (target = "shared" => n # QNone) /\
                     c' = [k |-> "thr", target |-> target, ctor |-> n, sched |-> <<>>,
                           pc |-> [t \in 1..NThr |-> "idle"], taken |-> [t \in 1..NThr |-> QNone], arg |-> [t \in 1..NThr |-> QNone]]
-                    /\ s' = ThrNew(n) /\ m' = MechNew(n)
+                    /\ s' = ThrNew(n, target = "shared") /\ m' = MechNew(n)
               /\ phase' = "thr" /\ UNCHANGED last
 \* which mechanism a target runs under ThrVariant: "private" = the correct pair (qgauss() builds its own object, a shared
 \* object hands the rule back in one piece); "late" = both read the shared rule after configuring
-HVar == IF c.target = "qgauss" THEN ThrVariant ELSE (IF ThrVariant = "private" THEN "snap" ELSE ThrVariant)
+HVar == IF c.target = "qgauss" THEN ThrVariant ELSE IF c.target = "own" THEN "private" ELSE (IF ThrVariant = "private" THEN "snap" ELSE ThrVariant)
+\* the rule a call has in hand after its configure step
+HTaken(arg) == IF HVar = "private" THEN (IF arg # QNone THEN arg ELSE c.ctor) ELSE MechSetup(m, arg, "pinned").rulefor
 HStart == /\ phase = "thr"
           /\ \E t \in 1..NThr : \E kind \in Kinds : \E arg \in ThrNpts \cup {QNone} :
                /\ c.pc[t] = "idle"
                /\ (t > 1 => c.pc[t - 1] # "idle")                            \* threads are interchangeable: start them in order
-               /\ (arg = QNone => (c.target = "object" /\ c.ctor # QNone))   \* a point count is always available
+               /\ (arg = QNone => (c.target # "qgauss" /\ c.ctor # QNone))   \* a point count is always available
+               /\ (c.target = "shared" => arg \in {QNone, c.ctor})            \* read-only use of the shared object
                /\ m' = ThrMechStart(m, arg, HVar)
                /\ c' = [c EXCEPT !.sched = Append(@, [op |-> "start", t |-> t, kind |-> kind, arg |-> arg]),
-                                 !.pc[t] = "configured", !.taken[t] = ThrMechTaken(m, arg, HVar), !.arg[t] = arg]
+                                 !.pc[t] = "configured", !.taken[t] = HTaken(arg), !.arg[t] = arg]
                /\ s' = CHOOSE s2 \in ThrSucc(s, [op |-> "start", t |-> t, arg |-> arg]) : TRUE
           /\ phase' = "thr" /\ last' = [ok |-> TRUE, why |-> "none"]
 HFinish == /\ phase = "thr"
